@@ -530,6 +530,11 @@ def run_check(pid, cfg, tier, seed, replay):
         if okp:
             names, axioms, bad_ax, missing, alog, arc = audit(pid, module)
         forb = forbidden_scan()
+        # independent re-check of the compiled theorem module by leanchecker (thorough tier, or VERIF_LEANCHECKER=1)
+        lc = None
+        if okp and (tier == "thorough" or os.environ.get("VERIF_LEANCHECKER") == "1") and not replay:
+            lrc, llog, ldt = sh(["lake", "env", "leanchecker", module], cwd=LEAN, timeout=3600)
+            lc = {"module": module, "exit": lrc, "wall_s": round(ldt, 1), "log_tail": llog[-500:]}
     obligations = len(names) if okp else len(theorem_names(os.path.join(LEAN, *module.split(".")) + ".lean"))
     discharged = len([n for n in names if n in axioms and n not in bad_ax]) if okp else 0
     cov.update({
@@ -539,7 +544,11 @@ def run_check(pid, cfg, tier, seed, replay):
                          "Lean compiler/runtime for the driver executable", "Go harness + check.py (correspondence)"] + cfg.get("trusted", []),
         "theorems": names,
     })
+    if lc is not None:
+        cov["leanchecker"] = lc
     proof_broken = None
+    if lc is not None and lc["exit"] != 0:
+        proof_broken = "leanchecker rejects the compiled theorem module: " + lc["log_tail"]
     if not okd:
         proof_broken = "driver (model) does not build: " + logd[-3000:]
     elif not okp:
